@@ -237,3 +237,32 @@ func zs(s string) string {
 
 // zn prints a byte string as the list of integers Run.zl decodes.
 func zn(s string) string { return "[" + strings.Join(chunks(s), ";") + "]" }
+
+// goaRequired reads, from goa's finalised gRPC endpoint expression, which of the given
+// request metadata / response header / response trailer attributes are required.
+func goaRequired(svc string, method int, where string, names []string) ([]string, bool) {
+	s := expr.Root.API.GRPC.Service(svc)
+	if s == nil || method >= len(s.GRPCEndpoints) {
+		return nil, false
+	}
+	e := s.GRPCEndpoints[method]
+	var m *expr.MappedAttributeExpr
+	switch where {
+	case "metadata":
+		m = e.Metadata
+	case "headers":
+		m = e.Response.Headers
+	default:
+		m = e.Response.Trailers
+	}
+	if m == nil {
+		return nil, false
+	}
+	var out []string
+	for _, n := range names {
+		if m.IsRequired(n) {
+			out = append(out, n)
+		}
+	}
+	return out, true
+}
